@@ -677,6 +677,7 @@ def std_oracle(interp, env, f, args, t, bb, path):
                 break
         return v
 
+    sa = f.get("self_adt")
     if key.startswith("core::ops::arith::") and name in ("add", "sub", "mul", "div", "rem", "neg"):
         xs = [deref(a) for a in args]
         if all(isinstance(x, (int, float)) and not isinstance(x, bool) for x in xs):
@@ -711,6 +712,21 @@ def std_oracle(interp, env, f, args, t, bb, path):
         if isinstance(v, Sym) and "deref" in v.fields:
             return v.fields["deref"]
         return a0
+    if sa in ("core::ops::range::Range", "core::ops::range::RangeInclusive") or key in ("core::ops::range::RangeInclusive::new",):
+        if name == "new" and len(args) == 2:
+            return Agg("adt", "core::ops::range::RangeInclusive", "RangeInclusive", [args[0], args[1], False])
+        r = deref(a0)
+        if isinstance(r, Agg) and len(r.fields) >= 2 and all(isinstance(z, (int, float)) and not isinstance(z, bool) for z in r.fields[:2]):
+            lo, hi = r.fields[0], r.fields[1]
+            incl = r.name.endswith("RangeInclusive")
+            if name == "contains" and len(args) == 2:
+                x = deref(args[1])
+                if isinstance(x, (int, float)) and not isinstance(x, bool):
+                    return (lo <= x <= hi) if incl else (lo <= x < hi)
+            if name == "is_empty":
+                return not (lo <= hi) if incl else not (lo < hi)
+            if name in ("start", "end") and incl:
+                return lo if name == "start" else hi
     if key.startswith("eyre::WrapErr::") or key.startswith("color_eyre::section::Section::") or key.startswith("color_eyre::Section::"):
         v = deref(a0)
         if isinstance(v, Agg) and v.name == "core::result::Result":
@@ -797,6 +813,15 @@ def std_oracle(interp, env, f, args, t, bb, path):
                 return math.copysign(1.0, x) > 0
             if name == "abs":
                 return abs(x)
+            if name == "floor":
+                return float(math.floor(x)) if abs(x) != math.inf else x
+            if name == "ceil":
+                return float(math.ceil(x)) if abs(x) != math.inf else x
+            if name == "fract":
+                return x - math.trunc(x) if abs(x) != math.inf else math.nan
+            if name == "rem_euclid" and len(args) == 2 and isinstance(deref(args[1]), (int, float)):
+                m = float(deref(args[1]))
+                return math.fmod(math.fmod(x, m) + abs(m), abs(m)) if m != 0 else math.nan
             if name in ("powi", "powf") and len(args) == 2 and isinstance(deref(args[1]), (int, float)):
                 try:
                     return x ** deref(args[1])
